@@ -22,7 +22,18 @@ type vEv struct {
 	T int64    // absolute release time
 	S int64    // start of the grant the event belongs to
 	A *big.Int // amount
+	D string   // denomination ("" = native)
 }
+
+func (ev vEv) denom() string {
+	if ev.D == "" {
+		return e.Denom
+	}
+	return ev.D
+}
+
+// vestDenoms are the denominations schedules are generated in.
+var vestDenoms = []string{e.Denom, "utest"}
 
 // released: an event counts at read time t when its period has ended (t >= T)
 // and the grant has started (t > S): "zero up to the start".
@@ -30,7 +41,7 @@ func (ev vEv) released(t int64) bool { return t >= ev.T && t > ev.S }
 
 type vTranche struct {
 	Lock []vEv
-	Cap  *big.Int // clawback cap on this tranche's unlocked amount (nil: none)
+	Cap  map[string]*big.Int // clawback cap on this tranche's unlocked amount per denom (nil: none)
 }
 
 type vModel struct {
@@ -40,40 +51,48 @@ type vModel struct {
 	Starts   []int64 // starts of all grants ever merged
 }
 
-func sumReleased(evs []vEv, t int64) *big.Int {
+func sumReleasedD(evs []vEv, t int64, d string) *big.Int {
 	s := new(big.Int)
 	for _, ev := range evs {
-		if ev.released(t) {
+		if ev.denom() == d && ev.released(t) {
 			s.Add(s, ev.A)
 		}
 	}
 	return s
 }
 
-func sumAll(evs []vEv) *big.Int {
+func sumAllD(evs []vEv, d string) *big.Int {
 	s := new(big.Int)
 	for _, ev := range evs {
-		s.Add(s, ev.A)
+		if ev.denom() == d {
+			s.Add(s, ev.A)
+		}
 	}
 	return s
 }
 
-func (m *vModel) Original() *big.Int { return sumAll(m.Vest) }
-func (m *vModel) Vested(t int64) *big.Int { return sumReleased(m.Vest, t) }
-func (m *vModel) Unvested(t int64) *big.Int {
-	return new(big.Int).Sub(m.Original(), m.Vested(t))
-}
-func (m *vModel) Unlocked(t int64) *big.Int {
+func sumAll(evs []vEv) *big.Int { return sumAllD(evs, e.Denom) }
+
+func (m *vModel) OriginalD(d string) *big.Int          { return sumAllD(m.Vest, d) }
+func (m *vModel) VestedD(t int64, d string) *big.Int   { return sumReleasedD(m.Vest, t, d) }
+func (m *vModel) UnvestedD(t int64, d string) *big.Int { return new(big.Int).Sub(m.OriginalD(d), m.VestedD(t, d)) }
+func (m *vModel) UnlockedD(t int64, d string) *big.Int {
 	s := new(big.Int)
 	for _, tr := range m.Tranches {
-		x := sumReleased(tr.Lock, t)
-		if tr.Cap != nil && x.Cmp(tr.Cap) > 0 {
-			x = tr.Cap
+		x := sumReleasedD(tr.Lock, t, d)
+		if tr.Cap != nil && x.Cmp(get(tr.Cap, d)) > 0 {
+			x = get(tr.Cap, d)
 		}
 		s.Add(s, x)
 	}
 	return s
 }
+
+// native-denomination shorthands
+func (m *vModel) Original() *big.Int          { return m.OriginalD(e.Denom) }
+func (m *vModel) Vested(t int64) *big.Int     { return m.VestedD(t, e.Denom) }
+func (m *vModel) Unvested(t int64) *big.Int   { return m.UnvestedD(t, e.Denom) }
+func (m *vModel) Unlocked(t int64) *big.Int   { return m.UnlockedD(t, e.Denom) }
 func minBig(a, b *big.Int) *big.Int {
 	if a.Cmp(b) < 0 {
 		return a
@@ -117,7 +136,7 @@ func (m *vModel) Locked(t int64, trackedDelegated *big.Int) *big.Int {
 	return a
 }
 
-func eventsOf(start int64, periods [][2]string, total *big.Int) []vEv {
+func eventsOf(start int64, periods [][2]string, second []string, total, total2 *big.Int) []vEv {
 	var out []vEv
 	t := start
 	if len(periods) == 0 {
@@ -125,21 +144,31 @@ func eventsOf(start int64, periods [][2]string, total *big.Int) []vEv {
 		if total.Sign() > 0 {
 			out = append(out, vEv{T: start, S: start, A: new(big.Int).Set(total)})
 		}
+		if total2.Sign() > 0 {
+			out = append(out, vEv{T: start, S: start, A: new(big.Int).Set(total2), D: "utest"})
+		}
 		return out
 	}
-	for _, p := range periods {
+	for i, p := range periods {
 		t += e.BigS(p[0]).Int64()
-		out = append(out, vEv{T: t, S: start, A: e.BigS(p[1])})
+		if a := e.BigS(p[1]); a.Sign() > 0 {
+			out = append(out, vEv{T: t, S: start, A: a})
+		}
+		if i < len(second) {
+			if a := e.BigS(second[i]); a.Sign() > 0 {
+				out = append(out, vEv{T: t, S: start, A: a, D: "utest"})
+			}
+		}
 	}
 	return out
 }
 
 // AddGrant merges a grant: the union of both schedules' release events.
 func (m *vModel) AddGrant(s Sched) {
-	total := s.Total()
-	tr := vTranche{Lock: eventsOf(s.Start, s.Lock, total)}
+	total, total2 := s.Total(), s.Total2()
+	tr := vTranche{Lock: eventsOf(s.Start, s.Lock, s.LockU, total, total2)}
 	m.Tranches = append(m.Tranches, tr)
-	m.Vest = append(m.Vest, eventsOf(s.Start, s.Vest, total)...)
+	m.Vest = append(m.Vest, eventsOf(s.Start, s.Vest, s.VestU, total, total2)...)
 	m.Starts = append(m.Starts, s.Start)
 }
 
@@ -149,7 +178,7 @@ func (m *vModel) AddGrant(s Sched) {
 func (m *vModel) UnvestedIncl(t int64) *big.Int {
 	s := new(big.Int)
 	for _, ev := range m.Vest {
-		if t >= ev.T {
+		if t >= ev.T && ev.denom() == e.Denom {
 			s.Add(s, ev.A)
 		}
 	}
@@ -173,7 +202,10 @@ func (m *vModel) Clawback(c int64, incl bool) *big.Int {
 	m.Vest = keep
 	// collapse the tranches: the cap applies to the account's merged lock-up
 	var all []vEv
-	capSum := sumAll(keep)
+	capSum := map[string]*big.Int{}
+	for _, d := range vestDenoms {
+		capSum[d] = sumAllD(keep, d)
+	}
 	for _, tr := range m.Tranches {
 		if tr.Cap == nil {
 			all = append(all, tr.Lock...)
@@ -191,15 +223,16 @@ func cappedEvents(tr vTranche) []vEv {
 	evs := append([]vEv{}, tr.Lock...)
 	sort.SliceStable(evs, func(i, j int) bool { return evs[i].T < evs[j].T })
 	var out []vEv
-	run := new(big.Int)
+	run := map[string]*big.Int{}
 	for _, ev := range evs {
-		room := new(big.Int).Sub(tr.Cap, run)
+		d := ev.denom()
+		room := new(big.Int).Sub(get(tr.Cap, d), get(run, d))
 		if room.Sign() <= 0 {
-			break
+			continue
 		}
 		a := minBig(ev.A, room)
-		out = append(out, vEv{T: ev.T, S: ev.S, A: new(big.Int).Set(a)})
-		run.Add(run, a)
+		out = append(out, vEv{T: ev.T, S: ev.S, A: new(big.Int).Set(a), D: ev.D})
+		run[d] = new(big.Int).Add(get(run, d), a)
 	}
 	return out
 }
@@ -250,6 +283,9 @@ func modelFromAccount(va *vestingtypes.ClawbackVestingAccount) *vModel {
 		for _, p := range ps {
 			t += p.Length
 			out = append(out, vEv{T: t, S: start, A: p.Amount.AmountOf(e.Denom).BigInt()})
+			if u := p.Amount.AmountOf("utest"); u.IsPositive() {
+				out = append(out, vEv{T: t, S: start, A: u.BigInt(), D: "utest"})
+			}
 		}
 		return out
 	}
@@ -262,43 +298,48 @@ func modelFromAccount(va *vestingtypes.ClawbackVestingAccount) *vModel {
 // swept read time (C09) and returns the first mismatch.
 func compareAccount(w *e.World, idx int, va *vestingtypes.ClawbackVestingAccount, m *vModel) *e.Violation {
 	now := w.Now.Unix()
-	orig := va.OriginalVesting.AmountOf(e.Denom).BigInt()
-	if orig.Cmp(m.Original()) != 0 {
-		return e.Violatef("vesting-arithmetic", "original-vesting-wrong", "acct %d: stored original vesting %s, reference %s", idx, orig, m.Original())
-	}
-	var prevV, prevU *big.Int
-	for _, t := range m.SweepTimes(now) {
-		tt := time.Unix(t, 0)
-		v := va.GetVestedCoins(tt).AmountOf(e.Denom).BigInt()
-		u := va.GetUnlockedCoins(tt).AmountOf(e.Denom).BigInt()
-		unv := va.GetVestingCoins(tt).AmountOf(e.Denom).BigInt()
-		lockedUp := va.GetLockedUpCoins(tt).AmountOf(e.Denom).BigInt()
-		rv, ru := m.Vested(t), m.Unlocked(t)
-		w.Stats.Oracle++
-		if v.Cmp(rv) != 0 {
-			return e.Violatef("vesting-arithmetic", "vested-amount-differs-from-reference", "acct %d at read time %d (block time %d): stored account says vested %s, reference (sum of periods ended by t) %s", idx, t, now, v, rv)
+	for _, d := range vestDenoms {
+		orig := va.OriginalVesting.AmountOf(d).BigInt()
+		if orig.Cmp(m.OriginalD(d)) != 0 {
+			return e.Violatef("vesting-arithmetic", "original-vesting-wrong", "acct %d: stored original vesting %s %s, reference %s", idx, orig, d, m.OriginalD(d))
 		}
-		if u.Cmp(ru) != 0 {
-			rel := "later"
-			if u.Cmp(ru) > 0 {
-				rel = "earlier"
+		if d != e.Denom && orig.Sign() > 0 {
+			w.Stats.Probe("multi_denom_schedule_compared")
+		}
+		var prevV, prevU *big.Int
+		for _, t := range m.SweepTimes(now) {
+			tt := time.Unix(t, 0)
+			v := va.GetVestedCoins(tt).AmountOf(d).BigInt()
+			u := va.GetUnlockedCoins(tt).AmountOf(d).BigInt()
+			unv := va.GetVestingCoins(tt).AmountOf(d).BigInt()
+			lockedUp := va.GetLockedUpCoins(tt).AmountOf(d).BigInt()
+			rv, ru := m.VestedD(t, d), m.UnlockedD(t, d)
+			w.Stats.Oracle++
+			if v.Cmp(rv) != 0 {
+				return e.Violatef("vesting-arithmetic", "vested-amount-differs-from-reference", "acct %d, %s, at read time %d (block time %d): stored account says vested %s, reference (sum of periods ended by t) %s", idx, d, t, now, v, rv)
 			}
-			return e.Violatef("vesting-arithmetic", "unlocked-amount-differs-from-reference:"+rel, "acct %d at read time %d (block time %d): stored account says unlocked %s, reference %s (original %s)", idx, t, now, u, ru, orig)
+			if u.Cmp(ru) != 0 {
+				rel := "later"
+				if u.Cmp(ru) > 0 {
+					rel = "earlier"
+				}
+				return e.Violatef("vesting-arithmetic", "unlocked-amount-differs-from-reference:"+rel, "acct %d, %s, at read time %d (block time %d): stored account says unlocked %s, reference %s (original %s)", idx, d, t, now, u, ru, orig)
+			}
+			if new(big.Int).Add(v, unv).Cmp(orig) != 0 || new(big.Int).Add(u, lockedUp).Cmp(orig) != 0 {
+				return e.Violatef("vesting-arithmetic", "parts-do-not-sum-to-original", "acct %d, %s, at %d: vested %s + unvested %s, unlocked %s + locked %s, original %s", idx, d, t, v, unv, u, lockedUp, orig)
+			}
+			if v.Sign() < 0 || u.Sign() < 0 || unv.Sign() < 0 || lockedUp.Sign() < 0 {
+				return e.Violatef("vesting-arithmetic", "negative-amount", "acct %d at %d", idx, t)
+			}
+			if prevV != nil && (v.Cmp(prevV) < 0 || u.Cmp(prevU) < 0) {
+				return e.Violatef("vesting-arithmetic", "schedule-not-monotone", "acct %d, %s, at %d: vested %s (before %s), unlocked %s (before %s)", idx, d, t, v, prevV, u, prevU)
+			}
+			prevV, prevU = v, u
 		}
-		if new(big.Int).Add(v, unv).Cmp(orig) != 0 || new(big.Int).Add(u, lockedUp).Cmp(orig) != 0 {
-			return e.Violatef("vesting-arithmetic", "parts-do-not-sum-to-original", "acct %d at %d: vested %s + unvested %s, unlocked %s + locked %s, original %s", idx, t, v, unv, u, lockedUp, orig)
-		}
-		if v.Sign() < 0 || u.Sign() < 0 || unv.Sign() < 0 || lockedUp.Sign() < 0 {
-			return e.Violatef("vesting-arithmetic", "negative-amount", "acct %d at %d", idx, t)
-		}
-		if prevV != nil && (v.Cmp(prevV) < 0 || u.Cmp(prevU) < 0) {
-			return e.Violatef("vesting-arithmetic", "schedule-not-monotone", "acct %d at %d: vested %s (before %s), unlocked %s (before %s)", idx, t, v, prevV, u, prevU)
-		}
-		prevV, prevU = v, u
 	}
-	if orig.Sign() > 0 {
+	if !va.OriginalVesting.IsZero() {
 		if err := va.Validate(); err != nil {
-			return e.Violatef("vesting-arithmetic", "stored-account-invalid", "acct %d: %v", idx, err)
+			return e.Violatef("vesting-arithmetic", "stored-account-invalid", "acct %d: %v (original %s, start %d, end %d, lockup %v, vesting %v)", idx, err, va.OriginalVesting, va.StartTime.Unix(), va.EndTime, va.LockupPeriods, va.VestingPeriods)
 		}
 	}
 	return nil
